@@ -24,7 +24,7 @@ Proof.
   induction ids as [|id r IH]; intros s acc; cbn [find_ids_lin]; [reflexivity|].
   destruct (alookup id (st_facts s)) as [fact|]; [|apply IH].
   destruct (jget "rule" fact) as [rule|]; [|apply IH].
-  destruct (expire st_rem_rec s id fact now) as [s1 ex]. destruct ex; [apply IH|].
+  destruct (expire st_rem_rec s id fact now) as [[s1 ex] err]. destruct err; [reflexivity|]. destruct ex; [apply IH|].
   destruct rule as [| | | | |rm]; try apply IH.
   destruct (alookup "when" rm) as [[| | | | |w]|]; try apply IH.
   match goal with |- context [core_match ?p ev []] =>
